@@ -17,33 +17,37 @@ open PedVerif.Gen.CtxMgr
 /-- the state of a documented-form user generator that is suspended at its yield -/
 def atYield : UState := { served := 1, done := false }
 
-theorem passArgs_id (m : Mode) (args : Nat) : passArgs m args = args := by
+/-- a concrete call used in the witnesses / examples: `cm(<object 5>, k=<object 6>)` (keyword name 1) -/
+def a5 : CallArgs := { pos := [5], kw := [(1, 6)] }
+
+theorem passArgs_id (m : Mode) (args : CallArgs) : passArgs m args = args := by
   cases m <;> simp [passArgs, shape, syncShape, asyncShape]
 
 theorem leave_of_not_converted (m : Mode) (fresh : Nat) (e : Exc) (h : converted m e.kind = false) :
     leave m fresh e = e := by simp [leave, h]
 
-theorem cleanupBlock_doc (m : Mode) (g : UserGen) (recv fresh : Nat) (hd : g.docForm m = true) :
+theorem cleanupBlock_doc (m : Mode) (g : UserGen) (recv : CallArgs) (fresh : Nat) (hd : g.docForm m = true) :
     ∃ u', cleanupBlock m g recv fresh atYield = ([.cleanup g.tag], g.cleanupExc, u') := by
   cases m <;> cases hc : g.cleanupExc <;>
     simp_all [UserGen.docForm, cleanupBlock, shape, syncShape, asyncShape, runBlocks, runNexts, userNext, catches, stopKind,
       converted, atYield]
 
 /-- `__enter__` on a documented-form generator whose setup succeeds: one setup event, the yielded value, suspended -/
-theorem enter_ok (m : Mode) (g : UserGen) (recv fresh : Nat) (hd : g.docForm m = true) (hs : g.setupExc = none) :
+theorem enter_ok (m : Mode) (g : UserGen) (recv : CallArgs) (fresh : Nat) (hd : g.docForm m = true) (hs : g.setupExc = none)
+    (hf : recv.fits = true) :
     wrapNext m g recv fresh .notStarted = ([.setup g.tag recv], .yielded g.value, .suspended atYield) := by
   simp_all [UserGen.docForm, wrapNext, userNext, atYield]
 
 /-- … whose setup raises `e`: the cleanup `next` in the `finally` meets a finished generator, `e` comes out -/
-theorem enter_fail (m : Mode) (g : UserGen) (recv fresh : Nat) (e : Exc) (hd : g.docForm m = true)
-    (hs : g.setupExc = some e) :
+theorem enter_fail (m : Mode) (g : UserGen) (recv : CallArgs) (fresh : Nat) (e : Exc) (hd : g.docForm m = true)
+    (hs : g.setupExc = some e) (hf : recv.fits = true) :
     wrapNext m g recv fresh .notStarted = ([.setup g.tag recv], .raised e, .done) := by
   cases m <;>
     simp_all [UserGen.docForm, wrapNext, userNext, unwind, cleanupBlock, shape, syncShape, asyncShape, runBlocks, runNexts,
       catches, stopKind, leave]
 
 /-- leaving the block of a documented-form manager: exactly the cleanup event; outcome as for try/finally -/
-theorem exitWith_doc (m : Mode) (g : UserGen) (recv fresh : Nat) (fin : Final) (hd : g.docForm m = true)
+theorem exitWith_doc (m : Mode) (g : UserGen) (recv : CallArgs) (fresh : Nat) (fin : Final) (hd : g.docForm m = true)
     (hq : ∀ c e, g.cleanupExc = some c → fin = .raised e → quirk m c e = false) :
     exitWith m g recv fresh (.suspended atYield) fin =
       ([.cleanup g.tag], match g.cleanupExc with | some c => .raised c | none => fin) := by
@@ -107,14 +111,14 @@ theorem exec_eq_spec (m : Mode) (p : Prog) :
     have hin := ih hd.2 hq.1 (fresh + 5)
     simp only [exec, spec, passArgs_id]
     cases hs : g.setupExc with
-    | some e => simp [enter_fail m g args fresh e hd.1 hs]
+    | some e => simp [enter_fail m g args fresh e hd.1.1 hs hd.1.2]
     | none =>
-      have hx := exitWith_doc m g args fresh (exec m inner (fresh + 5)).2.1 hd.1 (by
+      have hx := exitWith_doc m g args fresh (exec m inner (fresh + 5)).2.1 hd.1.1 (by
         intro c e hc hf
         have := hq.2
         rw [hs, hc, ← hin.2, hf] at this
         simpa using this)
-      simp only [enter_ok m g args fresh hd.1 hs, hx, hin.1]
+      simp only [enter_ok m g args fresh hd.1.1 hs hd.1.2, hx, hin.1]
       cases hc : g.cleanupExc <;> simp [hin.2]
 
 theorem run_eq_spec (m : Mode) (p : Prog) (hd : p.docForm m = true) (hq : p.quirkFree m = true) : run m p = spec p := by
@@ -129,7 +133,7 @@ consideration; `m` ranges over sync and async. -/
 /-- *cleanup exactly once and after the body*: whatever the block does (normal end, return/break, any exception — `inner` is
     arbitrary), the journal of `with g(args) as v: inner` is setup, bind, the block's own journal, cleanup: the code after the
     yield runs once, and it is the last event. -/
-theorem cleanup_once_after_body (m : Mode) (g : UserGen) (args : Nat) (inner : Prog)
+theorem cleanup_once_after_body (m : Mode) (g : UserGen) (args : CallArgs) (inner : Prog)
     (hd : (Prog.withCm g args inner).docForm m = true) (hq : (Prog.withCm g args inner).quirkFree m = true)
     (hs : g.setupExc = none) :
     (run m (.withCm g args inner)).1 = [.setup g.tag args, .bind g.tag g.value] ++ (run m inner).1 ++ [.cleanup g.tag] := by
@@ -139,8 +143,8 @@ theorem cleanup_once_after_body (m : Mode) (g : UserGen) (args : Nat) (inner : P
 
 /-- the leaf instance, with the count spelled out: for every body outcome and every cleanup outcome the journal is
     `[setup, bind, body, cleanup]`; the cleanup event occurs exactly once and after the body event -/
-theorem cleanup_exactly_once_leaf (m : Mode) (g : UserGen) (args n : Nat) (b : BodyOut) (hd : g.docForm m = true)
-    (hs : g.setupExc = none)
+theorem cleanup_exactly_once_leaf (m : Mode) (g : UserGen) (args : CallArgs) (n : Nat) (b : BodyOut) (hd : g.docForm m = true)
+    (hf : args.fits = true) (hs : g.setupExc = none)
     (hq : ∀ c e, g.cleanupExc = some c → b = .raises e → quirk m c e = false) :
     (run m (.withCm g args (.body n b))).1 = [.setup g.tag args, .bind g.tag g.value, .body n, .cleanup g.tag]
     ∧ count (fun ev => decide (ev = .cleanup g.tag)) (run m (.withCm g args (.body n b))).1 = 1 := by
@@ -152,14 +156,14 @@ theorem cleanup_exactly_once_leaf (m : Mode) (g : UserGen) (args n : Nat) (b : B
       cases b with
       | raises e => simp [BodyOut.final, hq c e hc rfl]
       | _ => rfl
-  have h := cleanup_once_after_body m g args (.body n b) (by simp [Prog.docForm, hd]) hq' hs
+  have h := cleanup_once_after_body m g args (.body n b) (by simp [Prog.docForm, hd, hf]) hq' hs
   have hb : (run m (.body n b)).1 = [.body n] := by simp [run, exec]
   rw [h, hb]
   simp [count]
 
 /-- early exit (`return` / `break` inside the block) is, at the `with` level, the same as normal completion:
     `__exit__(None, None, None)` is called in both cases — same journal, and control keeps leaving (`left`) unless the cleanup raises -/
-theorem early_exit_like_normal (m : Mode) (g : UserGen) (args n fresh : Nat) :
+theorem early_exit_like_normal (m : Mode) (g : UserGen) (args : CallArgs) (n fresh : Nat) :
     (exec m (.withCm g args (.body n .early)) fresh).1 = (exec m (.withCm g args (.body n .normal)) fresh).1
     ∧ ((exec m (.withCm g args (.body n .normal)) fresh).2.1 = .normal →
         (exec m (.withCm g args (.body n .early)) fresh).2.1 = .left) := by
@@ -170,7 +174,7 @@ theorem early_exit_like_normal (m : Mode) (g : UserGen) (args n fresh : Nat) :
 /-- *a body exception propagates unchanged unless the cleanup raises*: with a cleanup that does not raise, the `with` statement ends
     exactly as its block ended — the same exception object (kind, identity), for every kind incl. BaseException subclasses,
     GeneratorExit, Stop(Async)Iteration, RuntimeError, CancelledError; also `return`/`break` and normal end are passed on. -/
-theorem body_outcome_unchanged (m : Mode) (g : UserGen) (args : Nat) (inner : Prog)
+theorem body_outcome_unchanged (m : Mode) (g : UserGen) (args : CallArgs) (inner : Prog)
     (hd : (Prog.withCm g args inner).docForm m = true) (hqi : inner.quirkFree m = true)
     (hs : g.setupExc = none) (hc : g.cleanupExc = none) :
     (run m (.withCm g args inner)).2 = (run m inner).2 := by
@@ -178,20 +182,20 @@ theorem body_outcome_unchanged (m : Mode) (g : UserGen) (args : Nat) (inner : Pr
   rw [run_eq_spec m _ (by simp [Prog.docForm, hd]) (by simp [Prog.quirkFree, hqi, hs, hc]), run_eq_spec m inner hd.2 hqi]
   simp [spec, hs, hc]
 
-theorem body_exception_unchanged (m : Mode) (g : UserGen) (args n : Nat) (e : Exc) (hd : g.docForm m = true)
-    (hs : g.setupExc = none) (hc : g.cleanupExc = none) :
+theorem body_exception_unchanged (m : Mode) (g : UserGen) (args : CallArgs) (n : Nat) (e : Exc) (hd : g.docForm m = true)
+    (hf : args.fits = true) (hs : g.setupExc = none) (hc : g.cleanupExc = none) :
     (run m (.withCm g args (.body n (.raises e)))).2 = .raised e := by
-  rw [body_outcome_unchanged m g args _ (by simp [Prog.docForm, hd]) rfl hs hc]
+  rw [body_outcome_unchanged m g args _ (by simp [Prog.docForm, hd, hf]) rfl hs hc]
   simp [run, exec, BodyOut.final]
 
 /-- *the cleanup's exception wins* — full statement (no guard).  It is **false** for contextlib (see the witness below). -/
 def cleanup_exception_wins_full : Prop :=
-  ∀ (m : Mode) (g : UserGen) (args n : Nat) (b : BodyOut) (c : Exc), g.docForm m = true → g.setupExc = none →
+  ∀ (m : Mode) (g : UserGen) (args : CallArgs) (n : Nat) (b : BodyOut) (c : Exc), g.docForm m = true → args.fits = true → g.setupExc = none →
     g.cleanupExc = some c → (run m (.withCm g args (.body n b))).2 = .raised c
 
 /-- … proved under the explicit guard `quirk m c e = false`: the cleanup does not raise a RuntimeError chained by hand
     (`raise … from`) to the very Stop(Async)Iteration object the block raised -/
-theorem cleanup_exception_wins_partial (m : Mode) (g : UserGen) (args : Nat) (inner : Prog) (c : Exc)
+theorem cleanup_exception_wins_partial (m : Mode) (g : UserGen) (args : CallArgs) (inner : Prog) (c : Exc)
     (hd : (Prog.withCm g args inner).docForm m = true) (hq : (Prog.withCm g args inner).quirkFree m = true)
     (hs : g.setupExc = none) (hc : g.cleanupExc = some c) :
     (run m (.withCm g args inner)).2 = .raised c := by
@@ -201,26 +205,31 @@ theorem cleanup_exception_wins_partial (m : Mode) (g : UserGen) (args : Nat) (in
     StopIteration object 7, the cleanup raises `RuntimeError(…) from <object 7>` — the caller gets object 7, not the cleanup's exception -/
 theorem cleanup_exception_wins_witness :
     let g : UserGen := ⟨1, none, 1, some ⟨.runtimeError, 8, some 7⟩, 3⟩
-    g.docForm .sync = true ∧ (run .sync (.withCm g 5 (.body 0 (.raises ⟨.stopIteration, 7, none⟩)))).2 = .raised ⟨.stopIteration, 7, none⟩ := by
+    g.docForm .sync = true ∧ (run .sync (.withCm g a5 (.body 0 (.raises ⟨.stopIteration, 7, none⟩)))).2 = .raised ⟨.stopIteration, 7, none⟩ := by
   decide
 
 theorem cleanup_exception_wins_full_false : ¬ cleanup_exception_wins_full := by
   intro h
-  have := h .sync ⟨1, none, 1, some ⟨.runtimeError, 8, some 7⟩, 3⟩ 5 0 (.raises ⟨.stopIteration, 7, none⟩) ⟨.runtimeError, 8, some 7⟩
-    (by decide) rfl rfl
+  have := h .sync ⟨1, none, 1, some ⟨.runtimeError, 8, some 7⟩, 3⟩ a5 0 (.raises ⟨.stopIteration, 7, none⟩) ⟨.runtimeError, 8, some 7⟩
+    (by decide) rfl rfl rfl
   revert this; decide
 
 /-- *`as` binds the yielded value*: the block is entered with exactly the object the generator yielded -/
-theorem as_binds_yielded (m : Mode) (g : UserGen) (args : Nat) (inner : Prog) (fresh : Nat) (hd : g.docForm m = true)
-    (hs : g.setupExc = none) :
+theorem as_binds_yielded (m : Mode) (g : UserGen) (args : CallArgs) (inner : Prog) (fresh : Nat) (hd : g.docForm m = true)
+    (hf : args.fits = true) (hs : g.setupExc = none) :
     (exec m (.withCm g args inner) fresh).1.take 2 = [.setup g.tag args, .bind g.tag g.value] := by
-  simp [exec, passArgs_id, enter_ok m g args fresh hd hs]
+  simp [exec, passArgs_id, enter_ok m g args fresh hd hs hf]
 
-/-- *arguments are forwarded unchanged*: the generator function receives the caller's argument object (whatever the setup then does) -/
-theorem args_forwarded (m : Mode) (g : UserGen) (args : Nat) (inner : Prog) (fresh : Nat) :
-    (exec m (.withCm g args inner) fresh).1.head? = some (.setup g.tag args) := by
+/-- *arguments are forwarded unchanged*: for EVERY argument tuple — any number of positional objects, any keyword names (also names
+    like `f`, `args`, `kwargs`, `self`, `iterator`: a name is just a number here, the wrapper has no parameter that could capture
+    one), in the caller's order — that Python can bind to the generator function's parameters, the generator function is called
+    with exactly that tuple (whatever the setup then does): nothing added, dropped, renamed or reordered -/
+theorem args_forwarded (m : Mode) (g : UserGen) (pos : List Nat) (kw : List (Nat × Nat)) (inner : Prog) (fresh : Nat) :
+    (exec m (.withCm g { pos := pos, kw := kw } inner) fresh).1.head? = some (.setup g.tag { pos := pos, kw := kw }) := by
+  generalize hargs : ({ pos := pos, kw := kw } : CallArgs) = args
+  have hfit : args.fits = true := by rw [← hargs]
   have h : ∃ rest, (wrapNext m g args fresh .notStarted).1 = .setup g.tag args :: rest := by
-    simp only [wrapNext, userNext]
+    simp only [wrapNext, userNext, hfit]
     cases g.setupExc with
     | some e => simp
     | none => by_cases hy : 0 < g.yields <;> simp [hy]
@@ -230,10 +239,16 @@ theorem args_forwarded (m : Mode) (g : UserGen) (args : Nat) (inner : Prog) (fre
 
 /-- *a failing setup propagates without cleanup*: one setup event, no bind/body/cleanup event, the setup's exception object reaches
     the caller; the block (any program) is never entered -/
-theorem failing_setup_no_cleanup (m : Mode) (g : UserGen) (args : Nat) (inner : Prog) (e : Exc) (fresh : Nat)
-    (hd : g.docForm m = true) (hs : g.setupExc = some e) :
+theorem failing_setup_no_cleanup (m : Mode) (g : UserGen) (args : CallArgs) (inner : Prog) (e : Exc) (fresh : Nat)
+    (hd : g.docForm m = true) (hf : args.fits = true) (hs : g.setupExc = some e) :
     (exec m (.withCm g args inner) fresh).1 = [.setup g.tag args] ∧ (exec m (.withCm g args inner) fresh).2.1 = .raised e := by
-  simp [exec, passArgs_id, enter_fail m g args fresh e hd hs]
+  simp [exec, passArgs_id, enter_fail m g args fresh e hd hs hf]
+
+/-- a tuple that Python cannot bind to the generator function's parameters is a `TypeError` of the caller at `with` entry: the
+    generator is never created — no setup, no block, no cleanup -/
+theorem unbindable_call_raises (m : Mode) (g : UserGen) (args : CallArgs) (inner : Prog) (fresh : Nat) (hf : args.fits = false) :
+    (exec m (.withCm g args inner) fresh).1 = [] ∧ (exec m (.withCm g args inner) fresh).2.1 = .raised ⟨.exception, fresh, none⟩ := by
+  simp [exec, passArgs_id, wrapNext, hf]
 
 /-- *decoration-time rejection*: `safe_contextmanager` accepts exactly generator functions, `safe_async_contextmanager` exactly async
     generator functions (and hands `wrapper` to the matching contextlib factory); plain functions, coroutine functions and the
@@ -253,16 +268,16 @@ theorem source_shape :
 /-! ## Nested and repeated use: journals compose (induction over depth / count) -/
 
 /-- the events of entering the managers `gs` from the outside in -/
-def opens (gs : List (UserGen × Nat)) : List Ev :=
+def opens (gs : List (UserGen × CallArgs)) : List Ev :=
   gs.flatMap (fun ga => [.setup ga.1.tag ga.2, .bind ga.1.tag ga.1.value])
 /-- their cleanups, innermost first -/
-def closes (gs : List (UserGen × Nat)) : List Ev := (gs.map (fun ga => Ev.cleanup ga.1.tag)).reverse
+def closes (gs : List (UserGen × CallArgs)) : List Ev := (gs.map (fun ga => Ev.cleanup ga.1.tag)).reverse
 /-- the cleanup exception of the outermost manager that has one -/
-def outermostCleanupExc : List (UserGen × Nat) → Option Exc
+def outermostCleanupExc : List (UserGen × CallArgs) → Option Exc
   | [] => none
   | (g, _) :: gs => match g.cleanupExc with | some c => some c | none => outermostCleanupExc gs
 
-theorem spec_nest (gs : List (UserGen × Nat)) (inner : Prog) (hs : ∀ ga ∈ gs, ga.1.setupExc = none) :
+theorem spec_nest (gs : List (UserGen × CallArgs)) (inner : Prog) (hs : ∀ ga ∈ gs, ga.1.setupExc = none) :
     spec (nest gs inner) = (opens gs ++ (spec inner).1 ++ closes gs,
       match outermostCleanupExc gs with | some c => .raised c | none => (spec inner).2) := by
   induction gs with
@@ -276,7 +291,7 @@ theorem spec_nest (gs : List (UserGen × Nat)) (inner : Prog) (hs : ∀ ga ∈ g
 
 /-- **nested use, any depth**: `with g₀: with g₁: … with gₖ: inner` journals all setups/binds outside-in, then the block, then every
     cleanup exactly once in reverse order; the caller sees the outermost failing cleanup's exception, else what the block did -/
-theorem nested_use (m : Mode) (gs : List (UserGen × Nat)) (inner : Prog)
+theorem nested_use (m : Mode) (gs : List (UserGen × CallArgs)) (inner : Prog)
     (hd : (nest gs inner).docForm m = true) (hq : (nest gs inner).quirkFree m = true)
     (hs : ∀ ga ∈ gs, ga.1.setupExc = none) :
     run m (nest gs inner) = (opens gs ++ (spec inner).1 ++ closes gs,
@@ -331,14 +346,14 @@ theorem repeated_use_stops (m : Mode) (pre : List Prog) (p : Prog) (post : List 
   rw [run_eq_spec m _ (chain_docForm m _ hd) (chain_quirkFree m _ hq), spec_chain_stop pre p post hn hp]
 
 /-- `n` uses of the same manager one after the other: `n` copies of `[setup, bind, body, cleanup]` -/
-theorem repeated_same (m : Mode) (g : UserGen) (args k n : Nat) (hd : g.docForm m = true) (hs : g.setupExc = none)
-    (hc : g.cleanupExc = none) :
+theorem repeated_same (m : Mode) (g : UserGen) (args : CallArgs) (k n : Nat) (hd : g.docForm m = true) (hf : args.fits = true)
+    (hs : g.setupExc = none) (hc : g.cleanupExc = none) :
     run m (chain (List.replicate n (.withCm g args (.body k .normal)))) =
       ((List.replicate n [Ev.setup g.tag args, .bind g.tag g.value, .body k, .cleanup g.tag]).flatten ++ [.body 0], .normal) := by
   have h1 : run m (.withCm g args (.body k .normal)) = ([Ev.setup g.tag args, .bind g.tag g.value, .body k, .cleanup g.tag], .normal) := by
-    rw [run_eq_spec m _ (by simp [Prog.docForm, hd]) (by simp [Prog.quirkFree, hs, hc])]
+    rw [run_eq_spec m _ (by simp [Prog.docForm, hd, hf]) (by simp [Prog.quirkFree, hs, hc])]
     simp [spec, hs, hc, BodyOut.final]
-  rw [repeated_use m _ (by intro p hp; rw [(List.mem_replicate.mp hp).2]; simp [Prog.docForm, hd])
+  rw [repeated_use m _ (by intro p hp; rw [(List.mem_replicate.mp hp).2]; simp [Prog.docForm, hd, hf])
     (by intro p hp; rw [(List.mem_replicate.mp hp).2]; simp [Prog.quirkFree, hs, hc])
     (by intro p hp; rw [(List.mem_replicate.mp hp).2, h1])]
   simp [List.map_replicate, h1]
@@ -364,6 +379,180 @@ theorem cleanups_match_entries (m : Mode) (p : Prog) (hd : p.docForm m = true) (
       · have : (g.tag == t) = false := by simpa using ht
         simp [List.filter, Ev.isCleanup, Ev.isBind, this, ih]
 
+/-! ## Overlapping uses of ONE decorated manager (histories of enter / exit events, any interleaving) -/
+
+/-- read from the source on every run: in both wrappers the variable that holds the user generator between the yield and the
+    cleanup is a plain local of the wrapper call — one per use, not a `nonlocal` / `global` cell shared by the live uses -/
+theorem iterator_per_use (m : Mode) : (shape m).iteratorPerUse = true := by cases m <;> rfl
+
+theorem target_own (m : Mode) (n i : Nat) : target m n i = i := by simp [target, iterator_per_use]
+
+/-- frame lemma: an operation that is not the exit of use `i` (an enter, the exit of any other use) leaves the record of use `i`
+    — its generator's state included — untouched -/
+theorem stepOp_frame (m : Mode) (us : List UseRec) (op : Op) (i : Nat) (r : UseRec) (h : us[i]? = some r)
+    (hop : ∀ fin, op ≠ .exit i fin) : (stepOp m us op).2.2[i]? = some r := by
+  cases op with
+  | enter g args =>
+    have hi : i < us.length := by
+      rcases Nat.lt_or_ge i us.length with h1 | h1
+      · exact h1
+      · rw [List.getElem?_eq_none h1] at h; cases h
+    simp only [stepOp]
+    split <;> simp [List.getElem?_append_left hi, h]
+  | exit j fin =>
+    have hji : j ≠ i := fun e => hop fin (by rw [e])
+    simp only [stepOp, target_own]
+    split
+    · exact h
+    · split
+      · exact h
+      · split
+        · exact h
+        · simp [hji, h]
+
+/-- **per-use state**: whatever the other uses of the same manager do — any history `ops` of enters and exits, any length, any
+    interleaving — the state of use `i` (its own user generator, its wrapper frame) is exactly what its own operations left -/
+theorem uses_independent (m : Mode) (ops : List Op) : ∀ (us : List UseRec) (i : Nat) (r : UseRec), us[i]? = some r →
+    (∀ op ∈ ops, ∀ fin, op ≠ .exit i fin) → (runOps m us ops).2[i]? = some r := by
+  induction ops with
+  | nil => intro us i r h _; simpa [runOps] using h
+  | cons op rest ih =>
+    intro us i r h hno
+    simp only [runOps]
+    exact ih _ i r (stepOp_frame m us op i r h (hno op (by simp))) (fun o ho => hno o (by simp [ho]))
+
+/-- the exit of a live use resumes / throws into ITS OWN generator (`r.g` in the state `r.u`): journal and outcome are those of
+    `exitWith` on its own record, whatever else is in the state -/
+theorem exit_own (m : Mode) (us : List UseRec) (i : Nat) (r : UseRec) (fin : Final) (h : us[i]? = some r) (hl : r.live = true) :
+    (stepOp m us (.exit i fin)).1 = (exitWith m r.g r.recv r.fresh (.suspended r.u) fin).1
+    ∧ (stepOp m us (.exit i fin)).2.1 = .exited (exitWith m r.g r.recv r.fresh (.suspended r.u) fin).2 := by
+  simp [stepOp, target_own, h, hl]
+
+
+theorem enter_record (m : Mode) (us : List UseRec) (g : UserGen) (args : CallArgs) (evs : List Ev) (v : Nat) (u : UState)
+    (he : wrapNext m g args (freshOf us.length) .notStarted = (evs, .yielded v, .suspended u)) :
+    (stepOp m us (.enter g args)).2.2[us.length]? = some ⟨g, args, freshOf us.length, u, true⟩ := by
+  simp [stepOp, passArgs_id, he]
+
+/-- **overlapping uses of one manager**: use `i` is entered (its `__enter__` yields), then ANY history `ops` of other uses of the
+    same manager follows (enters and exits in any order and number: tasks inside `async with m()` at the same time, the manager
+    nested in itself, …; `ops` just does not exit use `i`), then the block of use `i` ends with `fin`: the journal and the outcome
+    of that exit are those of the single use — `exitWith` on the wrapper state its own `__enter__` returned.  Together with
+    `exitWith_doc` / `hist_eq_spec`: each use's events depend only on its own generator. -/
+theorem overlapping_uses_independent (m : Mode) (us : List UseRec) (g : UserGen) (args : CallArgs) (ops : List Op) (fin : Final)
+    (evs : List Ev) (v : Nat) (u : UState)
+    (he : wrapNext m g args (freshOf us.length) .notStarted = (evs, .yielded v, .suspended u))
+    (hno : ∀ op ∈ ops, ∀ f, op ≠ .exit us.length f) :
+    (stepOp m (runOps m (stepOp m us (.enter g args)).2.2 ops).2 (.exit us.length fin)).1
+      = (exitWith m g args (freshOf us.length) (.suspended u) fin).1
+    ∧ (stepOp m (runOps m (stepOp m us (.enter g args)).2.2 ops).2 (.exit us.length fin)).2.1
+      = .exited (exitWith m g args (freshOf us.length) (.suspended u) fin).2 := by
+  have h := uses_independent m ops _ us.length _ (enter_record m us g args evs v u he) hno
+  exact exit_own m _ us.length _ fin h rfl
+
+/-- invariant linking the machine state with what the specification remembers -/
+def HistInv (m : Mode) (us : List UseRec) (en : List (UserGen × Bool)) : Prop :=
+  en = us.map (fun r => (r.g, r.live)) ∧ ∀ (j : Nat) (r : UseRec), us[j]? = some r → r.live = true → r.u = atYield ∧ r.g.docForm m = true
+
+theorem stepOp_eq_specOp (m : Mode) (us : List UseRec) (en : List (UserGen × Bool)) (op : Op) (rest : List Op)
+    (hinv : HistInv m us en) (hok : histOk m en (op :: rest) = true) :
+    (stepOp m us op).1 = (specOp en op).1 ∧ (stepOp m us op).2.1 = (specOp en op).2.1
+    ∧ HistInv m (stepOp m us op).2.2 (specOp en op).2.2 := by
+  obtain ⟨hen, hlive⟩ := hinv
+  simp only [histOk, Bool.and_eq_true] at hok
+  cases op with
+  | enter g args =>
+    simp only [Bool.and_eq_true] at hok
+    obtain ⟨⟨hd, hf⟩, _⟩ := hok
+    cases hs : g.setupExc with
+    | some e =>
+      simp only [stepOp, specOp, passArgs_id, enter_fail m g args _ e hd hs hf, hs]
+      refine ⟨trivial, trivial, ?_, ?_⟩
+      · simp [hen]
+      · intro j r hj hl
+        rcases Nat.lt_or_ge j us.length with h1 | h1
+        · rw [List.getElem?_append_left h1] at hj; exact hlive j r hj hl
+        · rcases Nat.eq_or_lt_of_le h1 with h2 | h2
+          · subst h2; simp at hj; subst hj; simp at hl
+          · rw [List.getElem?_eq_none (by simp; omega)] at hj; cases hj
+    | none =>
+      simp only [stepOp, specOp, passArgs_id, enter_ok m g args _ hd hs hf, hs]
+      refine ⟨by simp, trivial, ?_, ?_⟩
+      · simp [hen]
+      · intro j r hj hl
+        rcases Nat.lt_or_ge j us.length with h1 | h1
+        · rw [List.getElem?_append_left h1] at hj; exact hlive j r hj hl
+        · rcases Nat.eq_or_lt_of_le h1 with h2 | h2
+          · subst h2; simp at hj; subst hj; exact ⟨rfl, hd⟩
+          · rw [List.getElem?_eq_none (by simp; omega)] at hj; cases hj
+  | exit i fin =>
+    have hget : en[i]? = (us[i]?).map (fun r => (r.g, r.live)) := by rw [hen]; simp
+    cases hu : us[i]? with
+    | none =>
+      rw [hu] at hget
+      simp only [stepOp, specOp, hu, hget, Option.map_none]
+      exact ⟨trivial, trivial, hen, hlive⟩
+    | some r =>
+      rw [hu] at hget
+      simp only [Option.map_some] at hget
+      cases hl : r.live with
+      | false =>
+        rw [hl] at hget
+        simp only [stepOp, specOp, hu, hget, hl]
+        exact ⟨by simp, by simp, by simpa using hen, by simpa using hlive⟩
+      | true =>
+        rw [hl] at hget
+        obtain ⟨hat, hd⟩ := hlive i r hu hl
+        have hq : ∀ c e, r.g.cleanupExc = some c → fin = .raised e → quirk m c e = false := by
+          intro c e hc hf
+          have := hok.1
+          simp only [hget, hf, hc] at this
+          simpa using this
+        have hx := exitWith_doc m r.g r.recv r.fresh fin hd hq
+        rw [← hat] at hx
+        simp only [stepOp, specOp, target_own, hu, hget, hl, hx]
+        refine ⟨by simp, by cases r.g.cleanupExc <;> simp, ?_, ?_⟩
+        · rw [hen]
+          apply List.ext_getElem?
+          intro j
+          by_cases hji : i = j
+          · subst hji
+            have hi : i < us.length := by
+              rcases Nat.lt_or_ge i us.length with h1 | h1
+              · exact h1
+              · rw [List.getElem?_eq_none h1] at hu; cases hu
+            simp [hi]
+          · simp [hji]
+        · intro j r' hj hl'
+          by_cases hji : i = j
+          · subst hji
+            have hi : i < us.length := by
+              rcases Nat.lt_or_ge i us.length with h1 | h1
+              · exact h1
+              · rw [List.getElem?_eq_none h1] at hu; cases hu
+            simp [hi] at hj; subst hj; simp at hl'
+          · simp [hji] at hj; exact hlive j r' hj hl'
+
+
+/-- **histories meet the specification**: for every history of enters and exits over one manager (any number of live uses, any
+    interleaving) of documented-form generators, each operation journals and returns what try/finally semantics of ITS OWN use
+    says: an enter journals its setup (and binds the yielded value), an exit journals exactly one cleanup — that of the use being
+    left — and ends as its block ended unless its cleanup raises -/
+theorem hist_eq_spec (m : Mode) (ops : List Op) : ∀ (us : List UseRec) (en : List (UserGen × Bool)), HistInv m us en →
+    histOk m en ops = true → (runOps m us ops).1 = specOps en ops := by
+  induction ops with
+  | nil => intro us en _ _; simp [runOps, specOps]
+  | cons op rest ih =>
+    intro us en hinv hok
+    obtain ⟨h1, h2, h3⟩ := stepOp_eq_specOp m us en op rest hinv hok
+    have hok' : histOk m (specOp en op).2.2 rest = true := by
+      simp only [histOk, Bool.and_eq_true] at hok; exact hok.2
+    simp only [runOps, specOps, ih _ _ h3 hok', h1, h2]
+
+theorem hist_eq_spec_initial (m : Mode) (ops : List Op) (hok : histOk m [] ops = true) : (runOps m [] ops).1 = specOps [] ops :=
+  hist_eq_spec m ops [] [] ⟨rfl, by intro j r hj; simp at hj⟩ hok
+
+
 /-! ## Non-vacuity: concrete instances that meet the hypotheses -/
 
 def gOk (t : Nat) : UserGen := ⟨t, none, 1, none, 40 + t⟩
@@ -371,29 +560,43 @@ def gCleanupFails (t : Nat) : UserGen := ⟨t, none, 1, some ⟨.baseExc, 90 + t
 def gSetupFails (t : Nat) : UserGen := ⟨t, some ⟨.cancelled, 80 + t, none⟩, 1, none, 40 + t⟩
 
 -- the body raises KeyboardInterrupt-like object 7 / GeneratorExit / StopIteration / StopAsyncIteration: cleanup once, same object out
-example : run .sync (.withCm (gOk 1) 5 (.body 0 (.raises ⟨.baseExc, 7, none⟩)))
-    = ([.setup 1 5, .bind 1 41, .body 0, .cleanup 1], .raised ⟨.baseExc, 7, none⟩) := by decide
-example : run .sync (.withCm (gOk 1) 5 (.body 0 (.raises ⟨.stopIteration, 7, none⟩)))
-    = ([.setup 1 5, .bind 1 41, .body 0, .cleanup 1], .raised ⟨.stopIteration, 7, none⟩) := by decide
-example : run .async (.withCm (gOk 1) 5 (.body 0 (.raises ⟨.stopAsyncIteration, 7, none⟩)))
-    = ([.setup 1 5, .bind 1 41, .body 0, .cleanup 1], .raised ⟨.stopAsyncIteration, 7, none⟩) := by decide
-example : run .async (.withCm (gOk 1) 5 (.body 0 (.raises ⟨.generatorExit, 7, none⟩)))
-    = ([.setup 1 5, .bind 1 41, .body 0, .cleanup 1], .raised ⟨.generatorExit, 7, none⟩) := by decide
+example : run .sync (.withCm (gOk 1) a5 (.body 0 (.raises ⟨.baseExc, 7, none⟩)))
+    = ([.setup 1 a5, .bind 1 41, .body 0, .cleanup 1], .raised ⟨.baseExc, 7, none⟩) := by decide
+example : run .sync (.withCm (gOk 1) a5 (.body 0 (.raises ⟨.stopIteration, 7, none⟩)))
+    = ([.setup 1 a5, .bind 1 41, .body 0, .cleanup 1], .raised ⟨.stopIteration, 7, none⟩) := by decide
+example : run .async (.withCm (gOk 1) a5 (.body 0 (.raises ⟨.stopAsyncIteration, 7, none⟩)))
+    = ([.setup 1 a5, .bind 1 41, .body 0, .cleanup 1], .raised ⟨.stopAsyncIteration, 7, none⟩) := by decide
+example : run .async (.withCm (gOk 1) a5 (.body 0 (.raises ⟨.generatorExit, 7, none⟩)))
+    = ([.setup 1 a5, .bind 1 41, .body 0, .cleanup 1], .raised ⟨.generatorExit, 7, none⟩) := by decide
 -- early exit
-example : run .sync (.withCm (gOk 1) 5 (.body 0 .early)) = ([.setup 1 5, .bind 1 41, .body 0, .cleanup 1], .left) := by decide
+example : run .sync (.withCm (gOk 1) a5 (.body 0 .early)) = ([.setup 1 a5, .bind 1 41, .body 0, .cleanup 1], .left) := by decide
 -- cleanup exception wins over the body's
-example : run .async (.withCm (gCleanupFails 1) 5 (.body 0 (.raises ⟨.exception, 7, none⟩)))
-    = ([.setup 1 5, .bind 1 41, .body 0, .cleanup 1], .raised ⟨.baseExc, 91, none⟩) := by decide
+example : run .async (.withCm (gCleanupFails 1) a5 (.body 0 (.raises ⟨.exception, 7, none⟩)))
+    = ([.setup 1 a5, .bind 1 41, .body 0, .cleanup 1], .raised ⟨.baseExc, 91, none⟩) := by decide
 -- failing setup
-example : run .sync (.withCm (gSetupFails 1) 5 (.body 0 .normal)) = ([.setup 1 5], .raised ⟨.cancelled, 81, none⟩) := by decide
+example : run .sync (.withCm (gSetupFails 1) a5 (.body 0 .normal)) = ([.setup 1 a5], .raised ⟨.cancelled, 81, none⟩) := by decide
 -- hypotheses of `nested_use` / `repeated_use` are satisfiable at depth 3 / count 3, with a failing cleanup in the middle
-example : (nest [(gOk 1, 5), (gCleanupFails 2, 5), (gOk 3, 5)] (.body 0 (.raises ⟨.stopIteration, 7, none⟩))).docForm .sync = true
-    ∧ (nest [(gOk 1, 5), (gCleanupFails 2, 5), (gOk 3, 5)] (.body 0 (.raises ⟨.stopIteration, 7, none⟩))).quirkFree .sync = true
-    ∧ run .sync (nest [(gOk 1, 5), (gCleanupFails 2, 5), (gOk 3, 5)] (.body 0 (.raises ⟨.stopIteration, 7, none⟩)))
-      = ([.setup 1 5, .bind 1 41, .setup 2 5, .bind 2 42, .setup 3 5, .bind 3 43, .body 0, .cleanup 3, .cleanup 2, .cleanup 1],
+example : (nest [(gOk 1, a5), (gCleanupFails 2, a5), (gOk 3, a5)] (.body 0 (.raises ⟨.stopIteration, 7, none⟩))).docForm .sync = true
+    ∧ (nest [(gOk 1, a5), (gCleanupFails 2, a5), (gOk 3, a5)] (.body 0 (.raises ⟨.stopIteration, 7, none⟩))).quirkFree .sync = true
+    ∧ run .sync (nest [(gOk 1, a5), (gCleanupFails 2, a5), (gOk 3, a5)] (.body 0 (.raises ⟨.stopIteration, 7, none⟩)))
+      = ([.setup 1 a5, .bind 1 41, .setup 2 a5, .bind 2 42, .setup 3 a5, .bind 3 43, .body 0, .cleanup 3, .cleanup 2, .cleanup 1],
          .raised ⟨.baseExc, 92, none⟩) := by decide
-example : run .async (chain [.withCm (gOk 1) 5 (.body 1 .normal), .withCm (gOk 1) 5 (.body 2 .normal)])
-    = ([.setup 1 5, .bind 1 41, .body 1, .cleanup 1, .setup 1 5, .bind 1 41, .body 2, .cleanup 1, .body 0], .normal) := by decide
+example : run .async (chain [.withCm (gOk 1) a5 (.body 1 .normal), .withCm (gOk 1) a5 (.body 2 .normal)])
+    = ([.setup 1 a5, .bind 1 41, .body 1, .cleanup 1, .setup 1 a5, .bind 1 41, .body 2, .cleanup 1, .body 0], .normal) := by decide
+
+-- two tasks interleaved A-enter, B-enter, A-exit, B-exit (B's block raises), and the manager nested in itself (LIFO): hypotheses hold, every use
+-- is cleaned up once, by its own cleanup, after its own block
+example : histOk .async [] [.enter (gOk 1) a5, .enter (gOk 2) a5, .exit 0 .normal, .exit 1 (.raised ⟨.exception, 7, none⟩)] = true
+    ∧ (runOps .async [] [.enter (gOk 1) a5, .enter (gOk 2) a5, .exit 0 .normal, .exit 1 (.raised ⟨.exception, 7, none⟩)]).1
+      = [([.setup 1 a5, .bind 1 41], .entered 41), ([.setup 2 a5, .bind 2 42], .entered 42),
+         ([.cleanup 1], .exited .normal), ([.cleanup 2], .exited (.raised ⟨.exception, 7, none⟩))] := by decide
+example : (runOps .sync [] [.enter (gOk 1) a5, .enter (gCleanupFails 2) a5, .enter (gOk 3) a5, .exit 2 .left, .exit 1 .left, .exit 0 .left]).1
+      = [([.setup 1 a5, .bind 1 41], .entered 41), ([.setup 2 a5, .bind 2 42], .entered 42), ([.setup 3 a5, .bind 3 43], .entered 43),
+         ([.cleanup 3], .exited .left), ([.cleanup 2], .exited (.raised ⟨.baseExc, 92, none⟩)), ([.cleanup 1], .exited .left)] := by decide
+-- keyword names are just numbers for the wrapper: a tuple with several positional objects and five keywords arrives as it is
+example : (run .sync (.withCm (gOk 1) { pos := [5, 6, 7], kw := [(2, 8), (5, 9), (6, 10), (7, 11), (9, 12)] } (.body 0 .normal))).1.head?
+    = some (.setup 1 { pos := [5, 6, 7], kw := [(2, 8), (5, 9), (6, 10), (7, 11), (9, 12)] }) := by decide
+example : run .async (.withCm (gOk 1) { pos := [5], kw := [], fits := false } (.body 0 .normal)) = ([], .raised ⟨.exception, 1000, none⟩) := by decide
 -- decoration
 example : decorate .sync .plain true = .rejected "AssertionError" ∧ decorate .sync .asyncGenerator true = .rejected "AssertionError"
     ∧ decorate .async .generator true = .rejected "AssertionError" ∧ decorate .async .coroutine true = .rejected "AssertionError"
